@@ -67,6 +67,8 @@ pub struct GenParams {
     pub end_sync: bool,
     /// tiny chunks only (for schedule / crash work)
     pub tiny_chunks: bool,
+    /// chunks of 8+ records (few rotations)
+    pub roomy_chunks: bool,
 }
 
 impl Default for GenParams {
@@ -84,11 +86,16 @@ impl Default for GenParams {
             small_cache: false,
             end_sync: false,
             tiny_chunks: false,
+            roomy_chunks: false,
         }
     }
 }
 
 pub fn gen_config(r: &mut Rng, p: &GenParams) -> CfgSpec {
+    if p.roomy_chunks {
+        let recs: &[Option<usize>] = &[Some(8), Some(12), Some(20), Some(40), None];
+        return CfgSpec { max_items: None, capacity: None, read_buf: Some(4096), max_records: *r.pick(recs), max_size: *r.pick(&[None, None, Some(2000)]), truncate: None };
+    }
     let recs: &[Option<usize>] = if p.tiny_chunks { &[Some(1), Some(2), Some(3), Some(4), Some(6)] } else { &[Some(0), Some(1), Some(2), Some(3), Some(5), Some(8), Some(20), None] };
     let sizes: &[Option<usize>] = if p.tiny_chunks { &[None, None, Some(120), Some(300)] } else { &[Some(0), Some(1), Some(60), Some(200), Some(1000), None, None, None] };
     let bufs: &[Option<usize>] = &[Some(0), Some(1), Some(7), Some(64), Some(4096), Some(4096), Some(65536)];
